@@ -26,7 +26,8 @@ ENUM = {
 PROOFS = ["proofs/P_RangeDim.tla"]    # thorough tier: bracket uniqueness, right-bound-minus-one, whole count, trim law for all integers (tlapm)
 POOL = 12
 CHUNK = 2500
-RULE = ("every call of the TLA+ enumeration: (constructor, step, start, stop in quarter steps, way the stop double is formed); "
+RULE = ("every call of the TLA+ enumeration: (constructor, how the step is communicated: step / samplerate / size, alone, agreeing or "
+        "conflicting; step, start, stop in quarter steps, way the stop double is formed); "
         "(step, start, length, query position among: each coordinate as read back, its two neighbouring doubles, each midpoint, "
         "half a step beyond both ends, raise/clamp, coordinate dtype float64/float32/int64/int32); (array shape <= 3 dims, queried dimensions "
         "and positions, scalar/array value, coordinate dtype, layout of the object: registration order of the coordinates, "
@@ -117,18 +118,20 @@ def _range(case):
     m = case["m"]
     stop = float(Fraction(case["a4"], 4) + Fraction(m, 4) * fs) if case["sm"] == "near" else a + (m / 4) * s
     fn = case["fn"]
-    passed = [bits(s)]
+    # how the step is communicated: step argument (st), samplerate (sr), size -- possibly several at once, possibly conflicting
+    kw = {}
+    if case["st"]:
+        kw["step"] = s
+    if case["sr"]:
+        kw["samplerate"] = float(Fraction(case["sr"][0][0], case["sr"][0][1]))
+    if case["size"]:
+        kw["size"] = case["size"][0]
+    passed = [bits(s)] if case["st"] else []
     try:
-        if fn == "range_step":
-            v = arrays.create_range_dim("x", a, stop, step=s)
-        elif fn == "range_size":
-            v = arrays.create_range_dim("x", a, stop, size=m // 4)
-            passed = []
-        elif fn == "time_step":
-            v = arrays.create_time_range(a, stop, step=s)
-        elif fn == "time_sr":
-            v = arrays.create_time_range(a, stop, samplerate=float(case["s"][1]))
-            passed = []
+        if fn == "range":
+            v = arrays.create_range_dim("x", a, stop, **kw)
+        elif fn == "time":
+            v = arrays.create_time_range(a, stop, **kw)
         elif fn == "freq":
             v = arrays.create_frequency_range(a, stop, s)
         else:
@@ -233,16 +236,23 @@ def random_cases(rng, tier):
     for _ in range(150 * k):
         s = rng.choice(UNITS)
         m = rng.choice([4 * rng.randrange(1, 300), rng.randrange(1, 1200)])
-        fn = rng.choice(["range_step", "range_step", "range_size", "time_step", "time_sr", "freq"])
-        if fn == "range_size":
+        fn = rng.choice(["range", "range", "time", "time", "freq"])
+        st, sr, size = True, [], []
+        mode = rng.random()
+        if fn == "range" and mode < 0.5:
             m = 4 * max(1, m // 4)
-        if fn == "time_sr" and s[0] != 1:
-            fn = "time_step"
+            st, size = mode < 0.15, [m // 4]                                  # size alone / step and an agreeing size
+        elif fn == "range" and mode < 0.65:
+            size = [m // 4 + rng.randrange(1, 5)]                              # step and a conflicting size
+        elif fn == "time" and mode < 0.4 and s[0] == 1:
+            st, sr = mode < 0.15, [[s[1], 1]]                                  # samplerate alone / step and the agreeing samplerate
+        elif fn == "time" and mode < 0.6:
+            sr = [[rng.choice([2, 3, 5]) * s[1], s[0]]]                        # step and a conflicting samplerate
         # np.arange fills start + i*((start+step)-start): the deviation grows like i*ulp(start); keep it far below the
         # 1e-9*step tolerance of CoordsOnLattice (generator restriction: |start| < 1 for the two sample-period units)
         a4 = rng.randrange(-3, 4) if s[1] > 1000 else rng.randrange(-32, 33)
-        yield {"kind": "range", "fn": fn, "s": s, "a4": a4, "m": m,
-               "sm": rng.choice(["near", "fma"]) if fn.startswith("range") else "near"}
+        yield {"kind": "range", "fn": fn, "st": st, "sr": sr, "size": size, "s": s, "a4": a4, "m": m,
+               "sm": rng.choice(["near", "fma"]) if fn == "range" and st and not size else "near"}
     for _ in range(300 * k):
         s = rng.choice(UNITS)
         n = rng.randrange(1, 200)
